@@ -193,6 +193,11 @@ def adEval (c : Ctx α) : Expr α → Except Err (Val α)
   | .call1 f a => do call1 c.ext f (← adEval c a)
   | .call2 f a b => do call2 f (← adEval c a) (← adEval c b)
 
+/-- `finite_differentiators._partial_two_sided_derivative` in one argument: the two-sided difference quotient with step `eps`
+    that differentiates user context functions (`eps = 1e-6 * max(|x|, 1)` in the code) -/
+def centralDiff (f : α → α) (x eps : α) : α :=
+  (f (x + eps) - f (x - eps)) / (((2 : Nat) : α) * eps)
+
 /-- `_adapt_equation_for_aldi` appends `+ Atom.zero(shape)` to every equation -/
 def adEquation (c : Ctx α) (e : Expr α) : Except Err (Val α) := do
   binop .add (← adEval c e) (.atom ((0 : Nat) : α) ((0 : Nat) : α))
